@@ -16,3 +16,6 @@ BOUNDS = {
 OUTSIDE = 'glibc / kernel behaviour (pthreads are a model written from POSIX: mutex with owner and recursion count honouring the attribute type, condition variable with waiter set, semaphore counter, thread create/join), weak memory, more than 4 threads'
 ASSUMPTIONS = ['real src/Mutex.cpp, Semaphore.cpp, Signal.cpp, Monitor.cpp, Thread.cpp on the pthread model; sequential consistency; the clock is a model: time passes only when a timed wait times out',
                'no native replay: counterexamples are schedules re-executed by the engine']
+
+TECHNIQUE = 'exhaustive bounded enumeration of thread schedules (preemption bound, injected spurious wake-ups and time-outs) of the real Mutex/Semaphore/Signal/Monitor/Thread IR on an engine model of pthreads; plus solver-decided deadline arithmetic for one symbolic timeout (z3, cvc5 --solve-bv-as-int as second back end)'
+LEVEL_TEXT = 'Schedules: bounded model checking by exhaustive enumeration within the preemption bound on the real IR over a pthread model (no symbolic data, no solver). Deadline arithmetic of the three timed waits: one symbolic timeout in [0, 2^30) ms, both directions decided by the solver. Counterexample schedules are re-executed concretely by the engine.'
